@@ -2,6 +2,7 @@ import ShootVerif.Proofs.CtorMain
 import ShootVerif.Model.TParams
 import ShootVerif.Proofs.CtorSelect
 import ShootVerif.Proofs.CtorFresh
+import ShootVerif.Proofs.CtorTypes
 import ShootVerif.Proofs.CtorAmb
 import ShootVerif.Proofs.Directive
 /-!
@@ -38,6 +39,18 @@ theorem C02_param_order (t : Tree) (hwf : WF t = true) :
     (gen t).params.map Prod.fst = (specParams t).map (fun l => paramName l.info.name) := by
   simp only [WF, wfParamNames, Bool.and_eq_true, Bool.not_eq_true', decide_eq_true_eq] at hwf
   exact paramNames_spec t hwf.1.2
+
+/-- each parameter is declared with the (printed) type of the leaf it stands for: the type column of the parameter list
+    is that of the eligible leaves, in the same order -/
+theorem C02_param_types (t : Tree) (hwf : WF t = true) :
+    (gen t).params.map Prod.snd = (specParams t).map (fun l => l.info.ptype) := by
+  simp only [WF, wfParamNames, Bool.and_eq_true, Bool.not_eq_true', decide_eq_true_eq] at hwf
+  exact paramTypes_spec t hwf.1.2
+
+/-- the same whenever only the FIELD names of the visible leaves differ (colliding camel-cased names included) -/
+theorem C02_param_types_general (t : Tree) (hnd : wfFieldNames t = true) :
+    (gen t).params.map Prod.snd = (specParams t).map (fun l => l.info.ptype) :=
+  paramTypes_spec_gen t hnd
 
 /-- a leaf is a parameter iff it is not hidden by Go's selector rule, not skipped, and marked when
     any field of the type is marked (definition of `eligible`, restated as the membership test) -/
